@@ -120,6 +120,37 @@ let next_nmp c =
   let mp = next_mp c in
   { np_label = x; np_longest_prefix = lp; np_child0 = (l0, v0); np_child1 = (l1, v1); np_mp = mp }
 
+(* ---- storage manager ---- *)
+let mst : mstate ref = ref (init_state false)
+let count_ops = ref false
+let split_colon s = String.split_on_char ':' s
+let parse_rec s = match split_colon s with
+  | ["A"; e; n] -> RAzks (n_of_dec e, n_of_dec n)
+  | ["N"; l; p] -> RNode (n_of_dec l, n_of_dec p)
+  | ["V"; u; e; ver; v] -> RVal { vs_user = n_of_dec u; vs_epoch = n_of_dec e; vs_version = n_of_dec ver; vs_value = n_of_dec v }
+  | _ -> failwith "rec"
+let parse_key s = match split_colon s with
+  | ["A"] -> KAzks
+  | ["N"; l] -> KNode (n_of_dec l)
+  | ["V"; u; e] -> KVal (n_of_dec u, n_of_dec e)
+  | _ -> failwith "key"
+let parse_flag s = match split_colon s with
+  | ["sv"; v] -> SpecificVersion (n_of_dec v)
+  | ["se"; e] -> SpecificEpoch (n_of_dec e)
+  | ["le"; e] -> LeqEpoch (n_of_dec e)
+  | ["max"] -> MaxEpoch
+  | _ -> MinEpoch
+let fmt_vs v = Printf.sprintf "V:%s:%s:%s:%s" (dec_of_n v.vs_user) (dec_of_n v.vs_epoch) (dec_of_n v.vs_version) (dec_of_n v.vs_value)
+let fmt_rec = function
+  | RAzks (e, n) -> Printf.sprintf "A:%s:%s" (dec_of_n e) (dec_of_n n)
+  | RNode (l, p) -> Printf.sprintf "N:%s:%s" (dec_of_n l) (dec_of_n p)
+  | RVal v -> fmt_vs v
+let fmt_err = function ENotFound -> "err N" | ETransaction -> "err T" | EOther -> "err O"
+let sorted_strs l = "[" ^ String.concat "," (List.sort compare l) ^ "]"
+let with_ops (before : mstate) (a : string) : string =
+  if !count_ops then Printf.sprintf "%s ops=%d" a (int_of_n (!mst).m_ops - int_of_n before.m_ops) else a
+let bool_of s = (s = "1")
+
 let answer (c : cur) : string =
   match next c with
   | "is_prefix" -> let a = next_label c in let b = next_label c in if is_prefix_of a b then "1" else "0"
@@ -162,6 +193,39 @@ let answer (c : cur) : string =
     if verify_membership cfg root p then "1" else "0"
   | "vnmp" -> let cfg = cfg_of (next c) in let root = next_bytes c in let p = next_nmp c in
     if verify_nonmembership_gen cfg !child_check root p then "1" else "0"
+  | "mgr" -> let cached = bool_of (next c) in count_ops := cached; mst := init_state cached; "ok"
+  | "begin" -> let b = !mst in let (s, r) = begin_transaction b in mst := s; with_ops b (if r then "1" else "0")
+  | "active" -> let b = !mst in with_ops b (if b.m_active then "1" else "0")
+  | "flush" -> let b = !mst in mst := flush b; with_ops b "ok"
+  | "commit" -> let f = bool_of (next c) in let b = !mst in let (s, r) = commit_transaction b f in mst := s;
+    with_ops b (match r with Ok n -> "ok " ^ dec_of_n n | Err e -> fmt_err e)
+  | "rollback" -> let b = !mst in let (s, r) = rollback_transaction b in mst := s;
+    with_ops b (match r with Ok _ -> "ok" | Err e -> fmt_err e)
+  | "set" -> let r = parse_rec (next c) in let f = bool_of (next c) in let b = !mst in
+    let (s, res) = set_record b r f in mst := s; with_ops b (match res with Ok _ -> "ok" | Err e -> fmt_err e)
+  | "bset" -> let k = int_of_string (next c) in let rs = List.init k (fun _ -> parse_rec (next c)) in let f = bool_of (next c) in
+    let b = !mst in let (s, res) = batch_set b rs f in mst := s; with_ops b (match res with Ok _ -> "ok" | Err e -> fmt_err e)
+  | "get" -> let k = parse_key (next c) in let f = bool_of (next c) in let b = !mst in
+    let (s, res) = get_record b k f in mst := s; with_ops b (match res with Ok r -> fmt_rec r | Err e -> fmt_err e)
+  | "bget" -> let k = int_of_string (next c) in let ks = List.init k (fun _ -> parse_key (next c)) in let f = bool_of (next c) in
+    let b = !mst in let (s, res) = batch_get b ks f in mst := s;
+    with_ops b (match res with Ok rs -> sorted_strs (List.map fmt_rec rs) | Err e -> fmt_err e)
+  | "ustate" -> let u = n_of_dec (next c) in let fl = parse_flag (next c) in let f = bool_of (next c) in let b = !mst in
+    let (s, res) = get_user_state b u fl f in mst := s; with_ops b (match res with Ok v -> fmt_vs v | Err e -> fmt_err e)
+  | "udata" -> let u = n_of_dec (next c) in let f = bool_of (next c) in let b = !mst in
+    let (s, res) = get_user_data b u f in mst := s;
+    with_ops b (match res with Ok vs -> sorted_strs (List.map fmt_vs vs) | Err e -> fmt_err e)
+  | "uvers" -> let k = int_of_string (next c) in let us = List.init k (fun _ -> n_of_dec (next c)) in
+    let fl = parse_flag (next c) in let f = bool_of (next c) in let b = !mst in
+    (* the code collects the answers in a map keyed by user *)
+    let rec dedup = function [] -> [] | x :: r -> if List.mem x r then dedup r else x :: dedup r in
+    let (s, res) = get_user_state_versions b (dedup us) fl f in mst := s;
+    with_ops b (match res with
+        | Ok l -> sorted_strs (List.map (fun (u, (ver, v)) -> Printf.sprintf "%s:%s:%s" (dec_of_n u) (dec_of_n ver) (dec_of_n v)) l)
+        | Err e -> fmt_err e)
+  | "tomb" -> let u = n_of_dec (next c) in let e = n_of_dec (next c) in let fr = bool_of (next c) in let fw = bool_of (next c) in
+    let b = !mst in let (s, res) = tombstone b u e fr fw in mst := s; with_ops b (match res with Ok _ -> "ok" | Err e -> fmt_err e)
+  | "dump" -> sorted_strs (List.map (fun (_, r) -> fmt_rec r) (!mst).m_db)
   | _ -> "?"
 
 let () =
